@@ -29,6 +29,7 @@ func main() {
 	repo := flag.String("repo", "/repo", "repository root")
 	out := flag.String("out", "", "output directory")
 	base := flag.String("base", "", "existing overlay json to build upon")
+	bbolt := flag.String("bbolt", "", "bbolt module directory: insert storage-write fault points into bucket.go")
 	flag.Parse()
 	if *out == "" {
 		fmt.Fprintln(os.Stderr, "-out required")
@@ -76,6 +77,21 @@ func main() {
 			rewritten++
 			fmt.Printf("rewrote %s\n", rel)
 		}
+	}
+	if *bbolt != "" {
+		src := filepath.Join(*bbolt, "bucket.go")
+		code, err := rewriteBbolt(src)
+		if err != nil {
+			fmt.Fprintf(os.Stderr, "rewrite bbolt bucket.go: %v\n", err)
+			os.Exit(1)
+		}
+		dst := filepath.Join(*out, "bbolt_bucket.go.overlay")
+		if err := os.WriteFile(dst, code, 0o644); err != nil {
+			panic(err)
+		}
+		replace[src] = dst
+		rewritten++
+		fmt.Println("rewrote bbolt bucket.go (fault points)")
 	}
 	data, _ := json.MarshalIndent(map[string]interface{}{"Replace": replace}, "", " ")
 	if err := os.WriteFile(filepath.Join(*out, "overlay.json"), data, 0o644); err != nil {
@@ -166,4 +182,50 @@ func rewrite(path string, redirectSync bool) (bool, []byte, error) {
 		return false, nil, err
 	}
 	return true, []byte(sb.String()), nil
+}
+
+// rewriteBbolt inserts `if e := vfault.Hit(b.tx, "<name>"); e != nil { return ... }` at the top of the
+// bucket write methods.
+func rewriteBbolt(path string) ([]byte, error) {
+	fset := token.NewFileSet()
+	file, err := parser.ParseFile(fset, path, nil, parser.ParseComments)
+	if err != nil {
+		return nil, err
+	}
+	targets := map[string]bool{"Put": true, "Delete": true, "CreateBucket": true, "CreateBucketIfNotExists": true, "DeleteBucket": true}
+	n := 0
+	for _, d := range file.Decls {
+		fd, ok := d.(*ast.FuncDecl)
+		if !ok || fd.Recv == nil || !targets[fd.Name.Name] || fd.Body == nil {
+			continue
+		}
+		if st, ok := fd.Recv.List[0].Type.(*ast.StarExpr); !ok || fmt.Sprint(st.X) != "Bucket" {
+			continue
+		}
+		recv := fd.Recv.List[0].Names[0].Name
+		results := []ast.Expr{ast.NewIdent("_vfaultErr")}
+		if fd.Type.Results != nil && fd.Type.Results.NumFields() == 2 {
+			results = []ast.Expr{ast.NewIdent("nil"), ast.NewIdent("_vfaultErr")}
+		}
+		guard := &ast.IfStmt{
+			Init: &ast.AssignStmt{Lhs: []ast.Expr{ast.NewIdent("_vfaultErr")}, Tok: token.DEFINE, Rhs: []ast.Expr{&ast.CallExpr{
+				Fun:  &ast.SelectorExpr{X: ast.NewIdent("vfault"), Sel: ast.NewIdent("Hit")},
+				Args: []ast.Expr{&ast.SelectorExpr{X: ast.NewIdent(recv), Sel: ast.NewIdent("tx")}, &ast.BasicLit{Kind: token.STRING, Value: strconv.Quote(fd.Name.Name)}}}}},
+			Cond: &ast.BinaryExpr{X: ast.NewIdent("_vfaultErr"), Op: token.NEQ, Y: ast.NewIdent("nil")},
+			Body: &ast.BlockStmt{List: []ast.Stmt{&ast.ReturnStmt{Results: results}}},
+		}
+		fd.Body.List = append([]ast.Stmt{guard}, fd.Body.List...)
+		n++
+	}
+	if n != len(targets) {
+		return nil, fmt.Errorf("expected %d write methods, instrumented %d", len(targets), n)
+	}
+	spec := &ast.ImportSpec{Name: ast.NewIdent("vfault"), Path: &ast.BasicLit{Kind: token.STRING, Value: strconv.Quote("verif/vfault")}}
+	file.Decls = append([]ast.Decl{&ast.GenDecl{Tok: token.IMPORT, Specs: []ast.Spec{spec}}}, file.Decls...)
+	file.Imports = append(file.Imports, spec)
+	var sb strings.Builder
+	if err := format.Node(&sb, fset, file); err != nil {
+		return nil, err
+	}
+	return []byte(sb.String()), nil
 }
